@@ -353,7 +353,7 @@ func (P *Prog) resolveType(pkg *types.Package, s string) types.Type {
 		return types.Typ[types.Int16]
 	case "int64":
 		return types.Typ[types.Int64]
-	case "uint8":
+	case "uint8", "byte":
 		return types.Typ[types.Uint8]
 	case "bool":
 		return types.Typ[types.Bool]
